@@ -65,6 +65,18 @@ def gen(rng, tier):
                 parts.append([ids[a:b] for a, b in zip([0] + cut, cut + [nid])])
         for p in parts:
             cases.append({"op": "eval_samples", "input": [inst, make_samples(rng, info, ids, p)], "stream": "samples/%d" % min(nid, 5)})
+    # constraint values exactly on the feasibility tolerance 1e-6 and its binary64 neighbours, for an inequality and an
+    # equality, active and removed: the flags of every sample must be those of evaluating its state alone
+    import math
+    T = 1e-6
+    vals = [T, math.nextafter(T, 1.0), math.nextafter(T, 0.0), -T, math.nextafter(-T, -1.0), math.nextafter(-T, 0.0), 0.0]
+    for removed in (False, True):
+        for eq in (1, 2):
+            c = GI.constraint(4, eq, ["lin", [[[1, f64(1.0)]], f64(0.0)]])
+            inst = [1, [["lin", [[[1, f64(1.0)]], f64(0.0)]]], [GI.dv(1, 3, (-1.0, 1.0)), GI.dv(2, 3, (-1.0, 1.0))],
+                    [] if removed else [c], [[[c], "why", []]] if removed else [], [], [], [], []]
+            samples = [[[[1, f64(v)], [2, f64(0.5)]], [10 + k]] for k, v in enumerate(vals)]
+            cases.append({"op": "eval_samples", "input": [inst, samples], "stream": "tolerance"})
     return cases
 
 
